@@ -84,7 +84,8 @@ def c18_suites(tier):
 
 
 def c19_suites(tier):
-    return [system.ServerSuite(), conc.ConcSuite(), timing.SpeedChangeSuite(), system.GateSuite(), glue.GlueSuite(), system.QueuedStartSuite()]
+    return [system.ServerSuite(), conc.ConcSuite(), timing.SpeedChangeSuite(), system.GateSuite(), glue.GlueSuite(), system.QueuedStartSuite(),
+            timing.PullOffSettingSuite()]
 
 
 PROPS = {
